@@ -77,6 +77,8 @@ def case_strategy(draw: Any) -> Dict[str, Any]:
         "requests": [draw(request_spec(i)) for i in range(n)],
         "sched": draw(st.integers(0, 999)),
         "seg": draw(segmentation()),
+        # plain keep-alive: each request is sent once the previous response has had time to end
+        "sequential": draw(st.integers(0, 3)) == 0,
         "cfg": {"keep_alive_max_requests": draw(st.sampled_from([1, 2, 3, 1000, 1000, 1000])),
                 "max_app_queue_size": draw(st.sampled_from([1, 2, 10, 10])),
                 "h11_pass_raw_headers": draw(st.booleans())},
@@ -229,8 +231,15 @@ def model(case: Dict[str, Any], actual_served: int = 0) -> Dict[str, Any]:
 
 async def scenario(env: Any, case: Dict[str, Any]) -> Any:
     conn = env.connect()
-    data = b"".join(req_bytes(i, r) for i, r in enumerate(case["requests"]))
-    await deliver(env, conn, data, case["seg"])
+    if case.get("sequential"):
+        for i, r in enumerate(case["requests"]):
+            if conn.server_gone:
+                break
+            await deliver(env, conn, req_bytes(i, r), case["seg"])
+            await env.settle(20.0)
+    else:
+        data = b"".join(req_bytes(i, r) for i, r in enumerate(case["requests"]))
+        await deliver(env, conn, data, case["seg"])
     await env.settle(200.0)
     conn.eof()
     await env.settle(200.0)
